@@ -12,9 +12,13 @@ import shroudrun  # noqa: E402
 from rt import cases as K, cgen  # noqa: E402
 
 PYINC = "/root/.pyenv/versions/3.12.1/include/python3.12"
-PY_ROWS = {"int_v", "long_v", "double_v", "bool_v", "int_pin", "int_pout", "int_pinout", "int_ref", "dbl_cref", "dbl_pout",
-           "bool_pinout", "cstr_in", "str_cref", "str_ref_inout", "str_ref_out"}
-PY_RESULTS = {"void", "int", "double", "bool", "cstr", "str_cref"}
+PY_ROWS = {"int_v", "long_v", "double_v", "bool_v", "enum_v", "int_pin", "int_pout", "int_pinout", "int_ref", "dbl_cref", "dbl_pout",
+           "bool_pinout", "cstr_in", "str_cref", "str_ref_inout", "str_ref_out",
+           # list-mode arrays and vectors, structs as classes (PY_array_arg: list, PY_struct_arg: class)
+           "arr_in", "arr_n", "arr_out", "out_n", "vec_in", "vec_out_alloc", "pt_v", "pt_pinout", "pt_cref"}
+PY_RESULTS = {"void", "int", "double", "bool", "enum", "cstr", "str_cref", "pt"}
+PT_Y = {"pt_v": 1.5, "pt_pinout": 2.5, "pt_cref": -0.5}
+SIZES = [4, 0, 1, 3]
 
 PCLS_YAML = [{"decl": "class Cls", "declarations": [
     {"decl": "Cls(int v)"}, {"decl": "~Cls()"}, {"decl": "int get() const"}, {"decl": "void set(int v)"},
@@ -56,8 +60,8 @@ def py_cases():
     return out
 
 
-def pyval(row, text):
-    """C literal of a row value -> (python value, tagged value)"""
+def pyval(row, text, kind=None, vi=0):
+    """C literal of a row value -> (python value as JSON, tagged value)"""
     ty = row["ty"]
     t = text.strip()
     if ty == "int":
@@ -72,16 +76,48 @@ def pyval(row, text):
     if ty == "str":
         v = t[1:-1]
         return v, {"t": "s", "v": [ord(ch) for ch in v]}
+    n = SIZES[vi % 4]
+    if ty == "arrd":
+        v = [1.0, float(t), -2.25, 8.0][:n]
+        return v, {"t": "ad", "v": [int(x * 4) for x in v]}
+    if ty == "arri":
+        v = [1, int(t), -2, 8][:n]
+        return v, {"t": "ai", "v": v}
+    if ty == "pt":
+        x, y = int(t), PT_Y[kind]
+        return {"__pt__": [x, y]}, {"t": "ai", "v": [x, int(y * 4)]}
     raise ValueError(ty)
 
 
+def is_input(p):
+    r = cgen.row(p)
+    return r["intent"] in ("in", "inout") and not r.get("api")
+
+
 def tla_sig(c):
-    s = cgen.tla_sig(c, None, len(c["params"]), "c")
+    s = cgen.tla_sig(c, None, len(c["params"]), "f")     # implied arguments are computed, as in Fortran ...
+    for d in s["params"]:
+        d["conv"] = "id"                                  # ... but Python strings are passed as they are
     return s
 
 
 def in_names(c):
-    return [p["name"] for p in c["params"] if cgen.row(p)["intent"] in ("in", "inout")]
+    return [p["name"] for p in c["params"] if is_input(p)]
+
+
+def out_tags(c):
+    """Expected tags of what the call returns (result first, then out/inout parameters): lets the driver tag an
+    empty list, whose element type Python cannot tell."""
+    tags = []
+    TAG = {"int": "i", "dbl": "d", "bool": "b", "str": "s", "arri": "ai", "arrd": "ad", "pt": "ai"}
+    rr = cgen.res_row(c["result"])
+    if rr["ty"] != "none":
+        tags.append(TAG.get(rr["ty"], "?"))
+    for p in c["params"]:
+        r = cgen.row(p)
+        if r["intent"] in ("out", "inout"):
+            tags.append(TAG.get(r["ty"], "?"))
+    return tags
 
 
 def cand(c):
@@ -101,14 +137,15 @@ def make_plan(cases, nvals, rng):
         byname.setdefault(c["name"], []).append(c)
     for c in cases:
         cands = [cand(x) for x in byname[c["name"]]]
-        ins = [p for p in c["params"] if cgen.row(p)["intent"] in ("in", "inout")]
+        ins = [p for p in c["params"] if is_input(p)]
         nreq = len([p for p in ins if "default" not in p])
+        rt = out_tags(c)
         for k in range(nreq, len(ins) + 1):
             for vi in range(nvals):
                 vals = []
                 for j, p in enumerate(ins[:k]):
                     r = cgen.row(p)
-                    vals.append(pyval(r, r["vals"][(vi + j) % len(r["vals"])]))
+                    vals.append(pyval(r, r["vals"][(vi + j) % len(r["vals"])], p["kind"], vi))
                 splits = range(0, k + 1) if vi == 0 else (k, 0)
                 for psplit in sorted(set(splits)):
                     pos = vals[:psplit]
@@ -116,12 +153,12 @@ def make_plan(cases, nvals, rng):
                     if vi == 0 and len(kws) > 1 and psplit == 0:
                         kws = list(reversed(kws))          # keyword order is immaterial
                     plan.append({"call": {"kind": "func", "name": c["name"], "pos": [v[0] for v in pos],
-                                          "kw": {n: v[0] for n, v in kws}},
+                                          "kw": {n: v[0] for n, v in kws}, "rt": rt},
                                  "tla": {"cands": cands, "pos": [v[1] for v in pos],
                                          "kw": [{"n": n, "v": v[1]} for n, v in kws], "self": {"t": "o", "v": [0]}},
                                  "label": "%s(%s)" % (c["name"], ", ".join([repr(v[0]) for v in pos] + ["%s=%r" % (n, v[0]) for n, v in kws]))})
         # calls that match no signature
-        full = [pyval(cgen.row(p), cgen.row(p)["vals"][1]) for p in ins]
+        full = [pyval(cgen.row(p), cgen.row(p)["vals"][1], p["kind"], 0) for p in ins]
         errs = []
         errs.append(([v for v in full] + [(1, {"t": "i", "v": [1]})], []))                      # too many
         errs.append(([v for v in full], [("zz", (1, {"t": "i", "v": [1]}))]))                  # unknown keyword
@@ -136,7 +173,7 @@ def make_plan(cases, nvals, rng):
         if ins:
             errs.append(([v for v in full], [(ins[0]["name"], full[0])]))                       # given twice
         for pos, kws in errs:
-            plan.append({"call": {"kind": "func", "name": c["name"], "pos": [v[0] for v in pos], "kw": {n: v[0] for n, v in kws}},
+            plan.append({"call": {"kind": "func", "name": c["name"], "pos": [v[0] for v in pos], "kw": {n: v[0] for n, v in kws}, "rt": rt},
                          "tla": {"cands": cands, "pos": [v[1] for v in pos], "kw": [{"n": n, "v": v[1]} for n, v in kws],
                                  "self": {"t": "o", "v": [0]}},
                          "label": "%s(%s) [no match expected?]" % (c["name"], ", ".join([repr(v[0]) for v in pos] + ["%s=%r" % (n, v[0]) for n, v in kws]))})
@@ -192,7 +229,7 @@ out = open(sys.argv[2], "a")
 import psub
 objs = {}
 order = {}
-def enc(v):
+def enc(v, hint=None):
     if isinstance(v, bool): return {"t": "b", "v": [1 if v else 0]}
     if isinstance(v, int): return {"t": "i", "v": [v]} if abs(v) < 2**31 + 1 else {"t": "big", "v": [0]}
     if isinstance(v, float):
@@ -200,9 +237,16 @@ def enc(v):
         return {"t": "d", "v": [int(q)]} if q == int(q) and abs(q) < 1e9 else {"t": "dx", "v": [ord(c) for c in repr(v)]}
     if isinstance(v, str): return {"t": "s", "v": [ord(c) for c in v]}
     if isinstance(v, bytes): return {"t": "s", "v": list(v)}
+    if isinstance(v, list):
+        if not v: return {"t": hint if hint in ("ai", "ad") else "a?", "v": []}
+        if all(isinstance(x, int) and not isinstance(x, bool) for x in v): return {"t": "ai", "v": v}
+        if all(isinstance(x, float) and x * 4 == int(x * 4) for x in v): return {"t": "ad", "v": [int(x * 4) for x in v]}
+        return {"t": "a?", "v": [ord(c) for c in repr(v)]}
+    if type(v).__name__ == "Pt": return {"t": "ai", "v": [v.x, int(v.y * 4)]}
     if id(v) in order: return {"t": "o", "v": [order[id(v)]]}
     return {"t": "other", "v": [ord(c) for c in type(v).__name__]}
 def deref(x):
+    if isinstance(x, dict) and "__pt__" in x: return psub.Pt(*x["__pt__"])
     return objs[x[1:]] if isinstance(x, str) and x.startswith("@") else x
 for k in range(start, len(plan)):
     c = plan[k]["call"]
@@ -219,9 +263,10 @@ for k in range(start, len(plan)):
             order[id(r)] = len(order) + 1
         else:
             r = getattr(objs[c["obj"]], c["name"])(*pos, **kw)
+        rt = c.get("rt") or []
         if r is None: ret = []
-        elif isinstance(r, tuple): ret = [enc(x) for x in r]
-        else: ret = [enc(r)]
+        elif isinstance(r, tuple): ret = [enc(x, rt[i] if i < len(rt) else None) for i, x in enumerate(r)]
+        else: ret = [enc(r, rt[0] if rt else None)]
     except BaseException as ex:
         exc = type(ex).__name__
     out.write(json.dumps({"ev": "PyReturn", "k": k, "exc": exc, "ret": ret}) + "\n"); out.flush()
@@ -256,7 +301,8 @@ def build_ext(d, cases, options=None):
         cc = ["gcc", "-std=c99"] if s.endswith(".c") else ["g++", "-std=c++11"]
         rc, txt = cgen.sh(cc + ["-g", "-fPIC", "-c", s, "-o", o, "-I", d, "-I", out, "-I", HERE, "-I", PYINC], d)
         if rc != 0:
-            return None, "compile %s: %s" % (os.path.basename(s), txt[-1500:])
+            open(os.path.join(d, "compile.log"), "w").write(txt)
+            return None, "compile %s: %s" % (os.path.basename(s), txt[:1500])
         objs.append(o)
     so_ = os.path.join(d, "psub.so")
     rc, txt = cgen.sh(["g++", "-shared", "-o", so_] + objs, d)
